@@ -154,9 +154,12 @@ CheckExpFlowOld(x) == UNION { ExpFlowBad(v, ExpSplitYOld(v)) : v \in {x, ANeg(x)
 \* C16: quadrant selection
 CheckQuadrant(x) == UNION { QuadrantBad(v) : v \in {x, ANeg(x)} }
 
+CheckAtanFlow(x) == UNION { AtanFlowBad(v) : v \in {x, ANeg(x)} }
+CheckPowfFlow(x) == UNION { PowfFlowBad(v) : v \in {x, ANeg(x)} }
+
 Items ==
   CASE MODE \in {"addsub", "mul", "div", "rem", "new", "cmp", "euclid"} -> SliceOf(SeqOfSet(ASet))
-    [] MODE \in {"expflow", "expflow_old", "quadrant"} -> SliceOf(SeqOfSet(ValidWithHi({ w \in WordsIn(E0 - GAP, E0 + GAP) : ~w.neg })))
+    [] MODE \in {"expflow", "expflow_old", "quadrant", "atanflow", "powfflow"} -> SliceOf(SeqOfSet(ValidWithHi({ w \in WordsIn(E0 - GAP, E0 + GAP) : ~w.neg })))
     [] MODE = "frac" -> SliceOf(SeqOfSet(ValidWithHi({ w \in WordsIn(E0 - GAP, E0 + GAP) : ~w.neg })))
     [] MODE = "nov" -> SliceOf(SeqOfSet(AllWords))
     [] MODE = "wide" -> SliceOf([k \in 1..P2(WBITS) |-> k - 1])
@@ -176,6 +179,8 @@ CheckItem(it) ==
     [] MODE = "expflow" -> CheckExpFlow(it)
     [] MODE = "expflow_old" -> CheckExpFlowOld(it)
     [] MODE = "quadrant" -> CheckQuadrant(it)
+    [] MODE = "atanflow" -> CheckAtanFlow(it)
+    [] MODE = "powfflow" -> CheckPowfFlow(it)
 
 Init == i = 0 /\ bad = {} /\ cnt = 0
 Next == /\ i < Len(ItemSeq)
